@@ -1,7 +1,7 @@
 (* ConstraintProofs.v — over the reals: every state a discrete geodesic appends is a successful projection (hence on
    the manifold), consecutive states are at most lambda*delta apart, and a geodesic that reports success ends within
    delta of the target; with interpolate = false every appended state is also valid. *)
-From Coq Require Import List Bool Arith Reals Lra.
+From Coq Require Import List Bool Arith Reals Lra Lia.
 From OmplV Require Import ConstraintModel.
 Import ListNotations.
 Local Open Scope R_scope.
@@ -93,3 +93,58 @@ Section GeoP.
       exists l. split; [reflexivity|]. split; [exact A1|]. split; [exact A2|]. split; [exact A3|]. intros Hok. apply rleb_true in Hok. rewrite <- A4. exact Hok.
   Qed.
 End GeoP.
+
+(* ---- geodesicInterpolate: for t >= 0 the returned state is one of the geodesic's states (never an access outside the
+   vector), so together with the theorem above every interpolated state is `from' or a successful projection ---- *)
+Section InterpP.
+  Variable St : Type.
+  Variable dist : St -> St -> R.
+  Notation ginterp := (geodesic_interpolate ReG St dist Rminus Rabs 1).
+
+  Lemma first_above_bound lastv t n : forall ds i, (i <= n - 1)%nat -> (first_above ReG ds lastv t i n <= n - 1)%nat.
+  Proof.
+    induction ds as [|x r IH]; intros i Hi; cbn [first_above]; [exact Hi|].
+    destruct (Nat.ltb_spec i (n - 1)) as [L|L]; cbn [andb]; [|exact Hi].
+    destruct (gle ReG (gdiv ReG x lastv) t); [apply IH; lia|exact Hi].
+  Qed.
+  Lemma partial_sums_length prev acc l : length (partial_sums ReG St dist prev acc l) = length l.
+  Proof. revert prev acc. induction l as [|s r IH]; intros prev acc; cbn [partial_sums length]; [reflexivity|]. rewrite IH. reflexivity. Qed.
+  Lemma nth_last_R (l : list R) : nth (length l - 1) l 0 = last l 0.
+  Proof.
+    induction l as [|a t IH]; [reflexivity|]. destruct t as [|b t']; [reflexivity|].
+    cbn [length] in *. replace (S (S (length t')) - 1)%nat with (S (S (length t') - 1)) by lia. cbn [nth last]. exact IH.
+  Qed.
+
+  Theorem geodesic_interpolate_in (g : list St) (t : R) : g <> [] -> 0 <= t ->
+    exists s, ginterp g t = Some s /\ In s g.
+  Proof.
+    intros Hg Ht. destruct g as [|s0 rest]; [congruence|]. unfold geodesic_interpolate.
+    set (n := length (s0 :: rest)). set (d := g0 ReG :: partial_sums ReG St dist s0 (g0 ReG) rest).
+    assert (Ld : length d = n) by (unfold d, n; cbn [length]; rewrite partial_sums_length; reflexivity).
+    set (lastv := last d (g0 ReG)).
+    destruct (gle ReG lastv (geps ReG)) eqn:E0; [exists s0; split; [reflexivity|left; reflexivity]|].
+    assert (Hl : geps ReG < lastv).
+    { cbn [gle ReG] in E0. unfold rleb in E0. destruct (Rle_dec lastv (geps ReG)); [discriminate|]. cbn [geps ReG] in *. lra. }
+    assert (Epos : 0 < geps ReG) by (cbn [geps ReG]; lra).
+    set (i := first_above ReG d lastv t 0 n).
+    assert (Hi : (i <= n - 1)%nat) by (apply first_above_bound; lia).
+    assert (Hn : (1 <= n)%nat) by (unfold n; cbn [length]; lia).
+    assert (Some_i : forall j, (j < n)%nat -> exists s, nth_error (s0 :: rest) j = Some s /\ In s (s0 :: rest)).
+    { intros j Hj. destruct (nth_error (s0 :: rest) j) as [s|] eqn:N; [exists s; split; [reflexivity|eapply nth_error_In; exact N]|].
+      apply nth_error_None in N. fold n in N. lia. }
+    match goal with |- context [if ?c then _ else _] => destruct c eqn:C end.
+    - apply Some_i. lia.
+    - apply Some_i. destruct (Nat.eq_dec i (n - 1)) as [Ei|Ni]; [|lia]. exfalso.
+      (* i = n - 1: t1 = 1 - t and t2 = 1, so the test can only fail for t < 0 *)
+      apply orb_false_iff in C. destruct C as (C1 & C2).
+      assert (N2 : (2 <= n)%nat).
+      { destruct (Nat.eq_dec n 1) as [E1|]; [|lia]. exfalso. unfold lastv, d in Hl. unfold n in E1. cbn [length] in E1.
+        destruct rest; [|discriminate]. cbn [partial_sums last g0 ReG] in Hl. lra. }
+      replace (Nat.leb i (n - 2)) with false in C1, C2 by (symmetry; apply Nat.leb_gt; lia).
+      assert (Ed : nth i d (g0 ReG) = lastv) by (rewrite Ei, <- Ld; apply nth_last_R).
+      rewrite Ed in C1, C2. cbn [gdiv ReG glt geps] in C1, C2.
+      assert (E1 : lastv / lastv = 1) by (field; lra). rewrite E1 in C1, C2.
+      apply rltb_false in C1. apply rltb_false in C2.
+      assert (t = 0) by lra. subst t. replace (1 - 0 - 1) with 0 in C2 by ring. rewrite Rabs_R0 in C2. cbn [geps ReG] in *. lra.
+  Qed.
+End InterpP.
